@@ -77,6 +77,67 @@ fn resolve<'b, 'tx>(tx: &'b Tx<'tx>, path: &[&'tx [u8]]) -> Result<Option<Bucket
     Ok(cur)
 }
 
+/// A put executed while a cursor of the same bucket, obtained before the put through another handle
+/// and already positioned, is kept and iterated to the end afterwards.  What such a cursor shows of
+/// the new key is not specified; what it must show is every entry the put did not touch that lies
+/// after the entry it returned last, in ascending order.  `before` = keys of the bucket before the
+/// put; `variant` chooses the position (0: after the first entry, 1: on the predecessor of the key).
+/// Returns the put's result and a description of what went wrong, if anything.
+pub fn put_with_kept_cursor<'tx>(tx: &Tx<'tx>, op: &'tx Op, before: &[Bytes], variant: usize) -> Option<(Ret, Option<String>)> {
+    let (path, key, val) = match op {
+        Op::Put { path, key, val } => (path, key, val),
+        _ => return None,
+    };
+    if before.is_empty() {
+        return None;
+    }
+    let r = catch_unwind(AssertUnwindSafe(|| -> Option<(Ret, Option<String>)> {
+        let p: Vec<&'tx [u8]> = path.iter().map(|p| p.as_slice()).collect();
+        let holder = resolve(tx, &p).ok()??;
+        let writer = resolve(tx, &p).ok()??;
+        let mut c = holder.cursor();
+        let pred = before.iter().filter(|k| *k < key).next_back();
+        let first = match (variant % 2, pred) {
+            (1, Some(pk)) => {
+                c.seek(pk.as_slice());
+                c.next()
+            }
+            _ => c.next(),
+        };
+        let last_returned: Bytes = match first {
+            Some(d) => data_to_pair(&d).0,
+            None => return Some((Ret::Panic("kept cursor: a bucket with entries yields nothing".into()), None)),
+        };
+        let ret = match writer.put(key.as_slice(), val.as_slice()) {
+            Ok(prev) => Ret::Prev(prev.map(|kv| (kv.key().to_vec(), kv.value().to_vec()))),
+            Err(e) => Ret::Err(err_kind(&e)),
+        };
+        let mut rest: Vec<Bytes> = vec![];
+        while let Some(d) = c.next() {
+            rest.push(data_to_pair(&d).0);
+            if rest.len() > SCAN_CAP {
+                break;
+            }
+        }
+        // untouched entries after the position must be a subsequence of what followed
+        let want: Vec<&Bytes> = before.iter().filter(|k| **k > last_returned && *k != key).collect();
+        let mut it = rest.iter();
+        let mut missing: Option<&Bytes> = None;
+        for w in &want {
+            if !it.any(|g| g == *w) {
+                missing = Some(w);
+                break;
+            }
+        }
+        let note = missing.map(|m| format!("a cursor positioned on {} before put({}) and iterated afterwards yields {} and never reaches the untouched entry {}", show(&last_returned), show(key), rest.iter().map(|x| show(x)).collect::<Vec<_>>().join(" "), show(m)));
+        Some((ret, note))
+    }));
+    match r {
+        Ok(x) => x,
+        Err(p) => Some((Ret::Panic(format!("{} @ {}", panic_msg(p), last_panic_loc())), None)),
+    }
+}
+
 /// Executes one model op through the public API.  `op` must outlive the database handle.
 /// With `owned` the key / value / name arguments are passed as owned `Vec<u8>` instead of slices.
 pub fn exec_op<'tx>(tx: &Tx<'tx>, op: &'tx Op, owned: bool) -> Ret {
@@ -602,7 +663,13 @@ pub fn probe_bucket<'b, 'tx>(
                     *v == ge || pred.as_ref().map(|p| v.len() == ge.len() + 1 && v[0] == *p && v[1..] == ge[..]).unwrap_or(false)
                 }
             };
-            for prior in 1..=cfg.reuse.min(model_all.len().max(1)) {
+            // cursors advanced 1..n times, and cursors run off the end (one and two calls past the last entry)
+            let mut priors: Vec<usize> = (1..=cfg.reuse.min(model_all.len().max(1))).collect();
+            if cfg.reuse > 0 {
+                priors.push(model_all.len() + 1);
+                priors.push(model_all.len() + 2);
+            }
+            for prior in priors {
                 stats.reads += 1;
                 let r = guarded(|| {
                     let mut c = b.cursor();
